@@ -187,6 +187,10 @@ def dataclass_src(fields):
     return "\n".join(lines)
 
 
+def _files_text(files):
+    return "\n".join(f"# {k}\n{v}" for k, v in files.items())
+
+
 def pair_sources(o, n, where):
     """Old and new source text of a package in which the compared function is reached through inheritance or is the
     constructor synthesised for a dataclass (then o and n are `self` + the fields)."""
@@ -201,7 +205,31 @@ def pair_sources(o, n, where):
         return t.format(src(o), src(n), "_B1"), t.format(src(o), src(n), "_B2")
     if where.startswith("dataclass"):
         return dataclass_src(o[1:]), dataclass_src(n[1:])
+    if where in PKG:
+        return _files_text(package_files(o, where)), _files_text(package_files(n, where))
     return src_in(o, where), src_in(n, where)
+
+
+PKG = ["reexport-init", "reexport-submodule", "target-private-name", "target-unlisted", "inherited-from-sibling", "inherited-from-sibling-module"]
+
+
+def package_files(sig, where):
+    """A facade package `pkg` (+ its private sibling `_pkg` or private module) exposing the function with this signature."""
+    d = src(sig)
+    if where == "reexport-init":
+        return {"_pkg/__init__.py": d, "pkg/__init__.py": "from _pkg import f\n\n__all__ = ['f']"}
+    if where == "reexport-submodule":
+        return {"_pkg/__init__.py": d, "pkg/__init__.py": '"""Facade."""', "pkg/api.py": "from _pkg import f\n\n__all__ = ['f']"}
+    if where == "target-private-name":
+        return {"pkg/_core.py": d.replace("def f(", "def _f(", 1), "pkg/__init__.py": "from pkg._core import _f as f\n\n__all__ = ['f']"}
+    if where == "target-unlisted":
+        return {"pkg/_core.py": "__all__ = ['g']\n\n\ndef g(): pass\n\n\n" + d, "pkg/__init__.py": "from pkg._core import f\n\n__all__ = ['f']"}
+    if where == "inherited-from-sibling":
+        return {"_pkg/__init__.py": "class Base:\n    " + d, "pkg/__init__.py": "from _pkg import Base\n\n__all__ = ['K']\n\n\nclass K(Base):\n    pass"}
+    if where == "inherited-from-sibling-module":
+        return {"_pkg/__init__.py": "", "_pkg/base.py": "class Base:\n    " + d,
+                "pkg/__init__.py": "from _pkg.base import Base\n\n__all__ = ['K']\n\n\nclass K(Base):\n    pass"}
+    raise ValueError(where)
 
 
 class Loader:
@@ -227,7 +255,21 @@ class Loader:
             m = griffe.load("pkg", search_paths=[d], extensions=extensions)
         return m
 
+    def load_check(self, files, extensions):
+        """The way `griffe check` loads a version: resolve_aliases=True, resolve_external=None, the shared extensions."""
+        import griffe
+        d = self.root / f"load{self.n}"
+        self.n += 1
+        for rel, text in files.items():
+            (d / rel).parent.mkdir(parents=True, exist_ok=True)
+            (d / rel).write_text(text + "\n")
+        return griffe.load("pkg", search_paths=[d], extensions=extensions, resolve_aliases=True, resolve_external=None)
+
     def pair(self, o, n, where):
+        if where in PKG:
+            import griffe
+            exts = griffe.load_extensions()
+            return self.load_check(package_files(o, where), exts), self.load_check(package_files(n, where), exts)
         so, sn = pair_sources(o, n, where)
         if where == "dataclass-one-extensions-object":
             # what `griffe check` / griffe.check() do: ONE load_extensions() result for the old and the new load, old first
@@ -650,9 +692,16 @@ class Cache:
         import griffe
         return griffe.visit("m", filepath=None, code=src_in(sig, where) + "\n")
 
+    @staticmethod
+    def _binder_place(where):
+        if where in PKG:
+            return "instance" if where.startswith("inherited") else "module"
+        return where
+
     def pyf(self, sig, where="module"):
         """The compiled definition as callers reach it (f, K().f or K.f); default values play no part in binding, so
         they are replaced by 0."""
+        where = self._binder_place(where)
         key = (tuple((nm, k, bool(d)) for nm, k, d in sig), where)
         if key not in self.fn:
             ns = {}
@@ -670,6 +719,7 @@ class Cache:
         return self.fn[key]
 
     def bindset(self, sig, where="module"):
+        where = self._binder_place(where)
         key = (tuple((nm, k, bool(d)) for nm, k, d in sig), where)
         if key not in self.bind:
             f = self.pyf(sig, where)
@@ -686,7 +736,7 @@ def impl_diff(cache, old, new, where="module", mods=None, only=None):
     out = []
     mo, mn = mods or (cache.module(old, where), cache.module(new, where))
     for b in griffe.find_breaking_changes(mo, mn):
-        if only is not None and not (b.obj.is_function and b.obj.name == only):
+        if only is not None and not (b.obj.is_function and b.obj.name in (only, "_" + only)):
             continue        # e.g. the attribute of a removed dataclass field: not a report on the function under test
         k = KINDMAP.get(b.kind.name)
         if k is None:
@@ -709,7 +759,9 @@ def check_pairs(ctx, cache, pairs, stream, notes=None, where="module", env=None)
     for idx, ((o, n), r) in enumerate(zip(pairs, res)):
         if env is not None:
             so_, sn_ = pair_sources(o, n, where)
-            case = {"old": so_, "new": sn_, "where": where + (": K(...) calls the synthesised __init__" if where.startswith("dataclass") else ": K().f is only inherited"),
+            case = {"old": so_, "new": sn_, "where": where + (": K(...) calls the synthesised __init__" if where.startswith("dataclass") else
+                                              ": loaded like `griffe check` (resolve_aliases=True, resolve_external=None, one extensions object)" if where in PKG
+                                              else ": K().f is only inherited"),
                     "old_signature": src(o), "new_signature": src(n)}
         else:
             case = {"old": src_in(o, where), "new": src_in(n, where)}
@@ -1150,6 +1202,14 @@ def explore(ctx):
             o = random_sig(ctx.rng)
             hp.append((o, random_sig(ctx.rng) if ctx.rng.random() < 0.3 else mutate(ctx.rng, o)))
         check_pairs(ctx, cache, hp, "inherited-methods", where=where, env=env)
+    # facade package + private sibling / private module, re-exports in __init__ and in submodules, targets that are not
+    # public where they are defined, methods inherited from a base living in the sibling; loaded the way `griffe check` loads
+    for where in PKG:
+        pp = [(o, n) for o in S1 for n in S1[:8]]
+        for _ in range(ctx.budget(90, 1500)):
+            o = random_sig(ctx.rng, maxn=4)
+            pp.append((o, o if ctx.rng.random() < 0.05 else (random_sig(ctx.rng, maxn=4) if ctx.rng.random() < 0.3 else mutate(ctx.rng, o))))
+        check_pairs(ctx, cache, pp, "facade-packages", where=where, env=env)
     dp = []
     for _ in range(ctx.budget(300, 4000)):
         o = random_fields(ctx.rng)
